@@ -135,20 +135,12 @@ pub mod k {
     /// uninterpreted functions, random bytes): drawn as anchored u64 words and reinterpreted, because
     /// Kani's concrete playback leaves whole-array draws out of the generated test when the array is
     /// only copied into a static (the native replay would then hand the following scalar values to
-    /// the wrong draws).  Sizes up to 64 bytes; loop-free.
+    /// the wrong draws).  Also used for every byte-array draw of a harness.  Sizes up to 256 bytes; loop-free.
     pub fn env<T: Copy>() -> T {
         let n = std::mem::size_of::<T>();
-        assert!(n <= 64, "verif_env::k::env draws at most 64 bytes");
-        let w: [u64; 8] = [
-            if n > 0 { any() } else { 0 },
-            if n > 8 { any() } else { 0 },
-            if n > 16 { any() } else { 0 },
-            if n > 24 { any() } else { 0 },
-            if n > 32 { any() } else { 0 },
-            if n > 40 { any() } else { 0 },
-            if n > 48 { any() } else { 0 },
-            if n > 56 { any() } else { 0 },
-        ];
+        assert!(n <= 256, "verif_env::k::env draws at most 256 bytes");
+        macro_rules! words { ($($k:expr),*) => { [ $( if n > $k * 8 { any::<u64>() } else { 0 } ),* ] } }
+        let w: [u64; 32] = words!(0, 1, 2, 3, 4, 5, 6, 7, 8, 9, 10, 11, 12, 13, 14, 15, 16, 17, 18, 19, 20, 21, 22, 23, 24, 25, 26, 27, 28, 29, 30, 31);
         unsafe { std::ptr::read(w.as_ptr() as *const T) }
     }
     #[cfg(not(verif_replay))]
@@ -194,6 +186,27 @@ pub mod dec {
     }
     pub fn usize_display(v: &usize, f: &mut fmt::Formatter<'_>) -> fmt::Result {
         write_dec(*v as u64, false, f)
+    }
+}
+
+/// `Node::is_secure` as an uninterpreted predicate for the table-structure obligations: whether a
+/// node's id is BEP42-valid for its IP is a pre-drawn bit selected by (id[19] & 3, ip[0] & 1) --
+/// eight independent symbolic bits, so every secure / insecure assignment to the handful of nodes a
+/// harness builds occurs -- except that private (10.x.x.x) addresses stay exempt (always secure) as
+/// in the real code.  A function of (id, ip), loop-free.  What BEP42 validity really is: C19.O3/O4
+/// (real CRC32C), exercised end to end by C11.O1.
+pub mod ufs {
+    pub static mut BITS: crate::verif_env::Ghost<u8> = crate::verif_env::ghost(102, 0);
+    pub fn arm(bits: u8) {
+        unsafe { BITS.v = bits }
+    }
+    pub fn is_secure(n: &crate::common::Node) -> bool {
+        let ip = n.address().ip().octets();
+        if ip[0] == 10 {
+            return true;
+        }
+        let idx = ((n.id().as_bytes()[19] & 3) << 1) | (ip[0] & 1);
+        (unsafe { BITS.v } >> idx) & 1 == 1
     }
 }
 
